@@ -13,7 +13,8 @@ from vlib.runner import Outcome
 PID = "C03"
 RULE = (
     "case = (mode spelling, year): every day of that year is enumerated and "
-    "all six module-level conversions, the TimePoint get_*/to_* methods, "
+    "all six module-level conversions, the TimePoint get_*/to_* methods and "
+    "derived field properties, "
     "iter_months_days, week-year starts, year/month/week counts and weekday "
     "continuity into the next year are compared with the closed-form "
     "reference; or case = (mode, start, end) for get_days_in_year_range. "
@@ -186,6 +187,16 @@ def check_year(mode, y):
                     if g != (c, o, w):
                         fails.append("timepoint_get: %s -> %r ref %r" % (
                             p, g, (c, o, w)))
+                        break
+                    # the field properties derive the other views' fields
+                    g3 = (p.month_of_year, p.day_of_month, p.day_of_year,
+                          p.week_of_year, p.day_of_week)
+                    if g3 != (c[1], c[2], o[1], w[1], w[2]):
+                        fails.append(
+                            "timepoint_properties: %s (month_of_year, "
+                            "day_of_month, day_of_year, week_of_year, "
+                            "day_of_week) = %r ref %r" % (
+                                p, g3, (c[1], c[2], o[1], w[1], w[2])))
                         break
                     pc, po, pw = (p.to_calendar_date(), p.to_ordinal_date(),
                                   p.to_week_date())
